@@ -49,11 +49,20 @@ ByName == UnionKinds \cup {"USER_RIGHTS"}     \* represented by the element of t
 SameName(A, b) == {a \in Elems(A) : a[1] = b[1] /\ a[3] = b[3]}
 Twins(A, b) == {a \in Elems(A) : a = b}
 RepSet(R, b) == {r \in Elems(R) : r[1] = b[1] /\ r[2] = b[2] /\ r[4] = b[4]}      \* by content identity
-\* b is textually identical to an element of A, but something b refers to is renamed by the merge:
-\* the code may then treat b as identical (shared) or as different (added under a fresh name)
-TargetRenamed(A, B, site, t) ==
-    \E x \in Elems(B) : x[1] = SiteTarget[site] /\ x[3] = t /\ SameName(A, x) # {} /\ Twins(A, x) = {}
-Disturbed(A, B, b) == \E p \in RefsOf(B, b[2], b[3]) : TargetRenamed(A, B, p[1], p[2])
+\* The elements of B that the merge may add under a fresh name: same name / other content in A
+\* (certainly renamed), and - transitively - elements that are textually identical to an element of A
+\* but refer to something that is renamed: after the reference has been rewritten they differ from A's
+\* element, so the code may treat them as identical (shared) or as different (added under a fresh name)
+\* depending on the order of its phases.  Both outcomes are accepted for them ("disturbed" twins).
+RECURSIVE RenFix(_, _, _)
+RenFix(A, B, D) ==
+    LET D2 == D \cup {b \in Elems(B) :
+                        /\ b[2] \notin ByName /\ b[2] \notin SingleKinds /\ Twins(A, b) # {}
+                        /\ \E p \in RefsOf(B, b[2], b[3]) : \E x \in D : x[1] = SiteTarget[p[1]] /\ x[3] = p[2]}
+    IN IF D2 = D THEN D ELSE RenFix(A, B, D2)
+MaybeRenamed(A, B) ==
+    RenFix(A, B, {x \in Elems(B) : x[2] \notin ByName /\ x[2] \notin SingleKinds /\ SameName(A, x) # {} /\ Twins(A, x) = {}})
+Disturbed(A, B, b) == Twins(A, b) # {} /\ b \in MaybeRenamed(A, B)
 
 \* the name under which b is found in R
 RepName(A, B, R, b) ==
